@@ -14,7 +14,7 @@ import numpy as np
 
 from ..core import import_library
 from ..gen import engines as E
-from ..probe import Probe, Reach
+from ..probe import Probe, Reach, plain_function
 
 WORKERS = {"quick": 1, "thorough": 16}
 nan = math.nan
@@ -255,7 +255,7 @@ def run(ctx):
         "blank lines and skipped lines. distinct_nontrivial = distinct (engine, v, scope, decimals, separator, switches) tables with >= 2 rows that were fully checked"
     )
     ctx.assumptions += ["outputs are replayed row by row in float mode on a restarted deep copy (batch == float is C02's business)", "inputs are compared as printed text with the monitor's own grid min + i*(max-min)/(k-1); a difference of one unit in the last place is counted ambiguous", "tables above 96 rows: 96 sampled rows are replayed when lock-previous is off (processing is history-free, C13); all rows otherwise (up to 600)"]
-    funcs = {"FldExporter.write_from_scope": fl.FldExporter.write_from_scope, "FldExporter.write": fl.FldExporter.write, "FldExporter.write_from_reader": fl.FldExporter.write_from_reader, "Op.increment": fl.Op.__dict__["increment"].__func__}
+    funcs = {"FldExporter.write_from_scope": fl.FldExporter.write_from_scope, "FldExporter.write": fl.FldExporter.write, "FldExporter.write_from_reader": fl.FldExporter.write_from_reader, "Op.increment": plain_function(fl.Op, "increment")}
     with Reach(funcs) as reach, Probe() as probe:
         mon = FldMonitor(ctx, fl)
         mon.install(probe)
